@@ -175,6 +175,31 @@ def groups(level, with_neg=True):
     return out
 
 
+REGEXY = ['(?#)', '(?:a)', '(?i)a', '(?s:a)', 'a{2}', 'a+', 'a$', '^a', '(?=a)', '(?!a)', '(?<=a)b', '(?P<n>a)', '#a', 'a #b', '$', '(a)', '{1,}', '(?#a)b']
+REGEXY_SETS = ['(?#)', 'a(?#)', '(?#)a', '(?:)', '$^', '{2}', '+*?', '(?i)', '#', '.$', '(|)', ')(', '&&', '||', '~~']
+
+
+def _regexy_nodes(r):
+    # `?` and `*` keep their wildcard meaning in the AST; everything else here is a literal character for wcmatch
+    return tuple(Q if c == '?' else STAR if c == '*' else lit(c) for c in r)
+
+
+def regexy_segments():
+    """Pattern texts that are regex syntax when read as a regex: as runs outside brackets and as the member list of a bracket
+    expression (the translation must not let any of it through unescaped, nor confuse it with its own internal markers)."""
+    out = []
+    for r in REGEXY:
+        out.append(_regexy_nodes(r))
+        out.append((lit('b'),) + _regexy_nodes(r) + (STAR,))
+    for r in REGEXY_SETS:
+        ivs = tuple(sorted({(ord(c), ord(c)) for c in r}))
+        if r[0] not in '!^-':
+            out.append((('cls', '[' + r + ']', False, ivs),))
+            out.append((lit('a'), ('cls', '[' + r + ']', False, ivs), STAR))
+        out.append((('cls', '[!' + r + ']', True, ivs),))
+    return out
+
+
 def segment_pool(tier, rnd, ext=True, budget=None):
     """Deterministic, de-duplicated list of single-segment patterns (node tuples)."""
     seen = set()
@@ -190,6 +215,8 @@ def segment_pool(tier, rnd, ext=True, budget=None):
     S = atoms_small()
     for a in A:
         add((a,))
+    for t in regexy_segments():
+        add(t)
     for a, b in itertools.product(A, S):
         add((a, b))
     for a, b in itertools.product(S, A):
@@ -211,6 +238,12 @@ def segment_pool(tier, rnd, ext=True, budget=None):
                 add((a, g, b))
         for g1, g2 in itertools.product(G0[::5], G0[::7]):
             add((g1, g2))
+        # star runs touching a group away from the start (`a**(b)`: the last star of a run may be the opener of a *( group)
+        for g in G0[::2]:
+            for pre in (lit('a'), Q, cls(0)):
+                for st in (STAR, ('star', 2), ('star', 3)):
+                    add((pre, st, g))
+            add((lit('a'), g, ('star', 2)))
         if tier != 'quick':
             G1 = groups(1)
             for g in G1[::2]:
